@@ -77,7 +77,7 @@ Judge_validate(c) ==
 Judge_union_rt(c) ==
   LET P == Parse(c.schema) IN
   IF ~P.ok THEN << Cl("H.schema", "fail") >>
-  ELSE IF "perr" \in DOMAIN c THEN << Cl("C11.accept", "fail") >>
+  ELSE IF "perr" \in DOMAIN c THEN << Cl("C11.accept", "fail"), Cl("C09.index", "fail") >>
   ELSE
   LET t == P.t
       names == P.st.names
@@ -113,7 +113,7 @@ Judge_union_rt(c) ==
 Judge_generate(c) ==
   LET P == Parse(c.schema) IN
   IF ~P.ok THEN << Cl("H.schema", "fail") >>
-  ELSE IF "perr" \in DOMAIN c THEN << Cl("C11.accept", "fail") >>
+  ELSE IF "perr" \in DOMAIN c THEN << Cl("C11.accept", "fail"), Cl("C20.generate", "fail") >>
   \* an adversarial (scripted) random source that always takes the recursive branch of a union is not a state of the real generator
   ELSE IF ~c.res.ok /\ "scripted" \in DOMAIN c.res /\ c.res.scripted /\ ~c.through_collection THEN << Cl("C20.generate", "unspec") >>
   ELSE IF ~c.res.ok /\ c.no_finite_value THEN << Cl("C20.generate", "unspec") >>      \* the type has no finite instance at all
